@@ -86,6 +86,7 @@ func run(pr *rules.Property, L *core.Ledger, kf *core.KnownFindings, repo, verif
 		len(p.Pkgs), core.ModPath, repo, len(p.AllFns), p.Skipped)
 	L.Trusts("go/parser, go/types, go/ssa (golang.org/x/tools v0.29.0)")
 	ctx := &rules.Ctx{P: p, L: L, Tier: tier, VerifDir: verif}
+	rules.SetTier(tier)
 	func() {
 		defer func() {
 			if r := recover(); r != nil {
